@@ -61,6 +61,9 @@ def _binding(call, positional_forms, where):
 
 
 FIELDS = ['useless_by_id', 'first_order_by_id', 'surface_by_id']
+# the configuration of the registered tree (/repo 38049d8): the hand model the check falls back to
+# (with a widened correspondence) when a site can no longer be read
+BASELINE = {'useless_by_id': True, 'first_order_by_id': True, 'surface_by_id': True}
 HASHED = ['remove_useless_nodes', 'to_first_order', 'to_surface', 'to_facets', 'cut_with_element_ids',
           'cut_with_element_type', 'cut_with_node_ids', 'cut_elements_with_node_ids', '_elements_exist',
           'extract_with_element_indices']
@@ -180,3 +183,149 @@ if __name__ == '__main__':
     import sys
     c, cons = translate(sys.argv[1] if len(sys.argv) > 1 else '/repo')
     print(emit(c))
+
+
+# ---------------------------------------------------------------------------
+# FEMElementalAttribute._to_first_order(element_type, element_data): which element types are
+# reduced, and to how many leading (corner) nodes.  Read by MEANING: the function body is
+# interpreted for every concrete element type of ELEMENT_TYPES with `element_data` symbolic
+# (conditions on the type are evaluated, module / class level constants are resolved by
+# ast.literal_eval, if / elif / else, guard clauses, early returns, table look-ups all give the
+# same table); the only data expressions understood are `element_data` and
+# `element_data[:, :K]`.  Result: gen/FirstOrder.v (first_order_arity of the Coq model).
+HARNESS_ELEMENT_TYPES = ['line', 'line2', 'spring', 'tri', 'tri2', 'quad', 'quad2', 'polygon', 'tet', 'tet2',
+                         'pyr', 'pyr2', 'prism', 'prism2', 'hex', 'hex2', 'hexprism', 'polyhedron', 'unknown']
+# the table of the registered tree: 'same' / number of columns kept / None = raises
+BASELINE_FIRST_ORDER = {t: ('same' if '2' not in t else {'tet2': 4, 'hex2': 8}.get(t)) for t in HARNESS_ELEMENT_TYPES}
+_SAFE = {'len': len, 'str': str, 'int': int, 'tuple': tuple, 'set': set, 'frozenset': frozenset, 'list': list,
+         'dict': dict, 'any': any, 'all': all, 'isinstance': isinstance, 'True': True, 'False': False, 'None': None}
+
+
+class _Raise(Exception):
+    pass
+
+
+class _NS:
+    pass
+
+
+def _literal_constants(body):
+    out = {}
+    for n in body:
+        tgt = None
+        if isinstance(n, ast.Assign) and len(n.targets) == 1 and isinstance(n.targets[0], ast.Name):
+            tgt, val = n.targets[0].id, n.value
+        elif isinstance(n, ast.AnnAssign) and isinstance(n.target, ast.Name) and n.value is not None:
+            tgt, val = n.target.id, n.value
+        if tgt:
+            try:
+                out[tgt] = ast.literal_eval(val)
+            except (ValueError, SyntaxError, TypeError):
+                pass
+    return out
+
+
+def _interp(stmts, env, data_name):
+    """returns 'same' | int (columns kept) ; raises _Raise when the code raises; None = fell through"""
+    def ev(e):
+        try:
+            return eval(compile(ast.Expression(e), '<c09>', 'eval'), {'__builtins__': _SAFE}, env)
+        except _Raise:
+            raise
+        except Exception as ex:
+            raise TranslateError(f'_to_first_order: cannot evaluate {ast.unparse(e)!r}: {type(ex).__name__}')
+    for st in stmts:
+        if isinstance(st, ast.Expr) and isinstance(st.value, ast.Constant):
+            continue
+        if isinstance(st, ast.Pass):
+            continue
+        if isinstance(st, ast.If):
+            r = _interp(st.body if ev(st.test) else st.orelse, env, data_name)
+            if r is not None:
+                return r
+            continue
+        if isinstance(st, ast.Raise):
+            raise _Raise()
+        if isinstance(st, ast.Assign) and len(st.targets) == 1 and isinstance(st.targets[0], ast.Name) \
+                and data_name not in {n.id for n in ast.walk(st.value) if isinstance(n, ast.Name)}:
+            env[st.targets[0].id] = ev(st.value)
+            continue
+        if isinstance(st, ast.Return) and st.value is not None:
+            v = st.value
+            if isinstance(v, ast.Name) and v.id == data_name:
+                return 'same'
+            if isinstance(v, ast.Subscript) and isinstance(v.value, ast.Name) and v.value.id == data_name \
+                    and isinstance(v.slice, ast.Tuple) and len(v.slice.elts) == 2:
+                a, b = v.slice.elts
+                if isinstance(a, ast.Slice) and a.lower is None and a.upper is None and a.step is None \
+                        and isinstance(b, ast.Slice) and b.lower is None and b.step is None and b.upper is not None:
+                    k = ev(b.upper)
+                    if isinstance(k, int) and not isinstance(k, bool) and k >= 0:
+                        return k
+            raise TranslateError(f'_to_first_order: unrecognised result expression {ast.unparse(v)!r}')
+        raise TranslateError(f'_to_first_order: unrecognised statement {ast.unparse(st)[:60]!r}')
+    return None
+
+
+def translate_first_order(repo):
+    f = Path(repo) / 'femio' / 'fem_elemental_attribute.py'
+    src = f.read_text()
+    tree = ast.parse(src)
+    cls = next((n for n in tree.body if isinstance(n, ast.ClassDef) and n.name == 'FEMElementalAttribute'), None)
+    if cls is None:
+        raise TranslateError('class FEMElementalAttribute not found')
+    mod_consts = _literal_constants(tree.body)
+    cls_consts = _literal_constants(cls.body)
+    types = cls_consts.get('ELEMENT_TYPES')
+    if types != HARNESS_ELEMENT_TYPES:
+        raise TranslateError('ELEMENT_TYPES differs from the type numbering of the model')
+    fns = [n for n in cls.body if isinstance(n, ast.FunctionDef) and n.name == '_to_first_order']
+    if len(fns) != 1:
+        raise TranslateError('_to_first_order not found exactly once')
+    fn = fns[0]
+    args = [a.arg for a in fn.args.args]
+    if args and args[0] in ('self', 'cls'):
+        args = args[1:]
+    if len(args) != 2 or fn.args.vararg or fn.args.kwarg or fn.args.kwonlyargs:
+        raise TranslateError('_to_first_order: unexpected signature')
+    tname, dname = args
+    ns = _NS()
+    for k, v in cls_consts.items():
+        setattr(ns, k, v)
+    table = {}
+    for t in types:
+        env = dict(mod_consts)
+        env.update({tname: t, 'self': ns, 'cls': ns, 'FEMElementalAttribute': ns})
+        try:
+            r = _interp(fn.body, env, dname)
+            if r is None:
+                raise TranslateError('_to_first_order: falls off the end')
+            table[t] = r
+        except _Raise:
+            table[t] = None
+    consumed = {'fem_elemental_attribute.py:FEMElementalAttribute._to_first_order':
+                hashlib.sha256(ast.get_source_segment(src, fn).encode()).hexdigest()}
+    return table, consumed
+
+
+def emit_first_order(table):
+    groups = {}
+    for i, t in enumerate(HARNESS_ELEMENT_TYPES):
+        r = table[t]
+        if r == 'same':
+            continue
+        groups.setdefault('None' if r is None else f'Some (Some {int(r)})', []).append((i, t))
+    lines = []
+    for rhs, its in groups.items():
+        lines.append('  | ' + ' | '.join(str(i) for i, _ in its) + f' => {rhs}   (* ' + ' '.join(t for _, t in its) + ' *)')
+    return ('(* generated by translate/c09_cfg.py (translate_first_order) from the tree under test - do not edit.\n'
+            '   FEMElementalAttribute._to_first_order per element type (index in ELEMENT_TYPES):\n'
+            '   Some None = returned unchanged; Some (Some k) = the first k columns are kept; None = raises *)\n'
+            'Definition first_order_arity (t : nat) : option (option nat) :=\n  match t with\n'
+            + '\n'.join(lines) + '\n  | _ => Some None\n  end%nat.\n')
+
+
+if __name__ == '__main__':
+    import sys
+    t, _ = translate_first_order(sys.argv[1] if len(sys.argv) > 1 else '/repo')
+    print(emit_first_order(t))
